@@ -31,7 +31,11 @@ def main(tier):
     chk.add_tlc("PyDRexC17Enum", eres, "every order of three postfix saves (postfixes '1', '10', 'q': one a string prefix of another; a mineral with all-zero ordinals) followed by one recovery through either loader - all behaviours emitted and replayed")
     if len(enum) < 70:
         raise MachineryError(f"only {len(enum)} enumerated persistence behaviours")
-    behs = behs + enum
+    enum2, e2res = layerb.enumerate_behaviours("PyDRexC17", "PyDRexC17Enum2", workers=8)
+    chk.add_tlc("PyDRexC17Enum2", e2res, "save, recover, save again into the same archive (postfix or whole-file rewrite), recover again - all behaviours emitted and replayed")
+    if len(enum2) < 100:
+        raise MachineryError(f"only {len(enum2)} save-recover-save-recover behaviours")
+    behs = behs + enum + enum2
     events, comp = layerb.run_behaviours(chk, "C17", behs, fcheck=False)
     acts = {}
     for e in events:
